@@ -52,8 +52,17 @@ Proof. intros st sid st' r Hi H Hne. exact (enc_sset_faithful st sid st' r H Hi 
 Theorem C05_reachable_states_satisfy_the_invariant : forall l ps, Inv (snd (run_actions ps b_init l)).
 Proof. intros l ps. apply reachable_inv_actions. split; [apply WriteP.inv_shape_init | apply inv_struct_init]. Qed.
 
+(* frame rule of the whole API: no call — add_* of any type (accepted or rejected), add_origin with its back-fill, queries,
+   no-format data, origin_reference changes, mode changes — touches the attribute states of an EXISTING object; only an
+   assignment to that very object does (and then C05_assign_value / C05_assign_units say what changes) *)
+Theorem C05_api_frame : forall ps st o ps' st' out j,
+  step ps st o = (ps', st', out) -> (j < length (b_items st))%nat ->
+  attrs_at st' j = attrs_at st j \/ (exists idx u r, o = OAssign j idx u r).
+Proof. exact step_attrs_frame. Qed.
+
 Print Assumptions C05_assign_value.
 Print Assumptions C05_assign_units.
 Print Assumptions C05_value_readback.
 Print Assumptions C05_record_is_the_set.
 Print Assumptions C05_reachable_states_satisfy_the_invariant.
+Print Assumptions C05_api_frame.
